@@ -351,6 +351,8 @@ def _main(prop, tier, seed, scen_name, scratch, t0, only):
                     n_dis += 1
                 elif ob['verdict'] == 'vacuous':
                     n_vacuous += 1
+                    if os.environ.get('VERIF_DEBUG'):
+                        log('   vacuous obligation %s %s choices=%s' % (ob['label'], json.dumps(job['cfg'])[:100], rec.get('choices')))
                 elif ob['verdict'] == 'unknown':
                     n_unknown += 1
                     harness_msgs.append("undecided obligation %s in job %d %s" % (
@@ -565,7 +567,7 @@ def _main(prop, tier, seed, scen_name, scratch, t0, only):
             'rule': 'one evaluation = one explored path of the real code (distinct path '
                     'condition); non-trivial = at least one data-dependent branch was '
                     'split by the solver',
-            'obligations': n_obl, 'discharged': n_dis, 'undecided': n_unknown,
+            'obligations': n_obl, 'discharged': n_dis, 'undecided': n_unknown, 'vacuous_on_infeasible_path': n_vacuous,
             'violated_obligations': sum(len(v) for v in viol.values()),
             'jobs': len(jobs), 'configurations': cfgs,
             'functions_encoded': sorted(funcs),
